@@ -144,8 +144,12 @@ func (e *Engine) gobStub(fr *frame, fn *ssa.Function, args []Value) Value {
 			return rerr
 		}
 		hb := arr.E[0].V.(*Term)
-		if !hb.IsConst() || int(hb.U) >= len(e.gob.records) {
-			panic(engineErr("gob stub: bad record handle"))
+		if !hb.IsConst() {
+			panic(engineErr("gob stub: symbolic record handle"))
+		}
+		if int(hb.U) >= len(e.gob.records) {
+			// bytes that no Encoder produced (e.g. an error text): gob reports a corrupt stream
+			return e.newSentinelError("encoding/gob.corruptStream")
 		}
 		rec := e.gob.records[hb.U]
 		pt, ok := dst.T.Underlying().(*types.Pointer)
